@@ -256,3 +256,7 @@ def _r10_3(res, P, cfgname):
             want = Big(orc(Fraction(n, d)))
             key = "Repr::%s(%d/%d)" % (name, n, d)
             _judge(res, "R10.3", cfgname, key, r, want, f)
+
+
+LEVEL = LEVEL + ' Also (R10.2b) every Inexact adjustment of the mode-generic rounding functions comes from a call on the mode R, (R10.4) the log2-estimate half test and all bound-returning functions are polarity-correct, (R10.5) half tests compare a remainder with its own divisor.'
+TECHNIQUE = 'finite-domain tabulation of round_fract / round_ratio / rational rounding bodies for all six modes against a definition oracle; call-shape rules; bound-polarity type system; half-test pairing'
